@@ -42,6 +42,15 @@ class Transaction(transaction.Transaction):
             string2,
             *args)
 
+    def auto_claim_comments(self) -> None:
+        self.claim_leading_comment(ignore_if_already_claimed=True)
+        self.claim_trailing_comment(ignore_if_already_claimed=True)
+        # Postings and meta items claim their own comments first, so that a comment next to a
+        # meta item is not taken as a standalone entry of the postings.
+        self._postings.auto_claim_comments()
+        self._meta.auto_claim_comments()
+        super().auto_claim_comments()
+
     @internal.custom_property
     def raw_payee(self) -> Optional[EscapedString]:
         return self.raw_string1
